@@ -10,7 +10,7 @@ import Driver.Forcing
 open Driver
 
 def allHandlers : List (String × Handler) :=
-  chemHandlers ++ ibmHandlers ++ genHandlers ++ releaseHandlers ++ postHandlers ++ gridHandlers ++ forcingHandlers ++ nkHandlers
+  chemHandlers ++ ibmHandlers ++ genHandlers ++ releaseHandlers ++ postHandlers ++ gridHandlers ++ forcingHandlers ++ nkHandlers ++ nbHandlers
 
 def table : Std.HashMap String Handler := Std.HashMap.ofList allHandlers
 
